@@ -28,10 +28,13 @@ CLAIM = {
             "and runs the same thermal-stage program as mode sequential. Tied to the running code by a bit-exact "
             "history differential on generated nets.",
     "note": "All theorems closed under the global context (no axioms). The effect scan is syntactic (aliasing inside "
-            "pandas/numpy is covered by the differential only); `transient` is specialised to False; recursion of "
-            "rerun_* is modelled as a bounded loop. The scan rejects mode=heat + only_update_hydraulic_matrix without "
-            "reuse (stale/absent _internal_data read by build_system_matrix): reproduced on the implementation, "
-            "listed in known/C12.json. Absent user_pf_options == {} (net.get default).",
+            "pandas/numpy is covered by the differential only); recursion of rerun_* is modelled as a bounded loop; "
+            "try/except blocks are part of the generated programs (handler events precede the re-raise); implicit "
+            "exceptions are modelled inside the Newton loop at the points where the cache key changes. All 12 "
+            "configurations pass the def-use scan at full strength; no_cache_left_behind covers return, stage failure "
+            "and every raise site inside the Newton loop. transient=True: the carried keys (_pit, _old_pit, converged; "
+            "_active_pit in bidirectional) are computed and pinned by transient_carried_keys. Absent user_pf_options "
+            "== {} (net.get default).",
     "technique": "Coq proof over generated effect programs (T-tie) + bit-identical history differential",
     "design": "DESIGN.md 4/C12 + design_notes/C12.md",
 }
